@@ -87,9 +87,16 @@ func genMessage(t *rapid.T) (string, proto.Message) {
 
 func newLike(m proto.Message) proto.Message { return m.ProtoReflect().New().Interface() }
 
+var decryptCalls int
+
 // decrypt runs DecryptMessage under a panic guard.
 func decrypt(t vkit.TB, ct []byte, src nodeenrollment.X25519KeyProducer, like proto.Message, what string, detail any) (proto.Message, error, bool) {
 	out := newLike(like)
+	// every second call decrypts into a message that was used before (all fields
+	// hold stale content): the result must still be exactly the decrypted message
+	if decryptCalls++; decryptCalls%2 == 0 {
+		vkit.Dirty(out)
+	}
 	var err error
 	if pv, stack := vkit.Guard(func() { err = nodeenrollment.DecryptMessage(ctx, ct, src, out) }); pv != nil {
 		key := "C11/panic/other"
